@@ -44,6 +44,15 @@ func (w *worker) kill() {
 // iso runs one case (kind + fields, as in a cases file) in the worker.
 var hangCount int
 
+// isoFresh runs the case in a NEW worker process (no pool history, no leftover goroutines)
+func isoFresh(kind, fields string, deadline time.Duration) string {
+	if theWorker != nil {
+		theWorker.kill()
+		theWorker = nil
+	}
+	return iso(kind, fields, deadline)
+}
+
 func iso(kind, fields string, deadline time.Duration) string {
 	if hangCount >= 4 {
 		// enough hangs have been observed in this run: do not spend the run's time budget on more
